@@ -104,6 +104,11 @@ theorem index_spec (s pat : Bytes) (i : Nat) (h : Go.index s pat = some i) :
     pat <+: s.drop i ∧ ∀ j < i, ¬ pat <+: s.drop j := by
   exact index_spec' s pat i h
 
+/-- the per-response hook returned by ShimBody (regenerated fact): it uses no buffer that is allocated once per
+    ShimBody call, so concurrent responses cannot see each other's bytes; the splice theorems above, which are
+    about one response in isolation, therefore apply to every response of a concurrent run -/
+theorem shim_hook_shares_no_buffer : websockets_shimBodySharedBuffers = [] := by decide
+
 -- non-vacuity
 example : (shimBody [1] [116,101,120,116,47,72,84,77,76] [60,104,101,97,100,62,60,104,101,97,100,62] [9]).1 = [60,104,101,97,100,62,1,60,104,101,97,100,62,9] := by decide
 example : banner_isFrameableHTMLResponse 200 [(banner_contentTypeHeader, [[116,101,120,116,47,104,116,109,108]])] = true := by decide
